@@ -91,7 +91,11 @@ def _job(args):
     fp = None
     if fault:
         k, f = fault
-        fp = {k: {"per": [f]}}
+        if f.startswith("transport"):
+            # a transport / API error on the k-th call (the request is retried by the execution layer)
+            fp = {k: {"transport": "before" if f.endswith("before") else "after", "error": "APIError"}}
+        else:
+            fp = {k: {"per": [f]}}
 
     def mk():
         h = LiveLife(enabled, meta)
@@ -127,6 +131,9 @@ def explore_live(rep, enabled, tier):
         for k in (0, 1):
             for f in ("TIMEOUT", "FAILURE:ERROR_IN_ORDER") + (("TIMEOUT_APPLIED",) if thorough else ()):
                 jobs.append((name, dict(fill=1, lapse=0, dup=0), (k, f), sorted(enabled)))
+    for name in ("place-cancel", "place-cancelpart-cancel", "place-replace-cancel", "place-update-cancel"):
+        for f in ("transport-before", "transport-after"):
+            jobs.append((name, dict(fill=0, lapse=0, dup=0), (1, f), sorted(enabled)))
     n = 0
     for r in core.pmap(_job, jobs, chunk=1):
         rep.add_violations(r["violations"])
@@ -150,7 +157,8 @@ def replay_live(case, enabled):
     m = case["meta"]
     fp = None
     if m.get("fault"):
-        fp = {m["fault"][0]: {"per": [m["fault"][1]]}}
+        f = m["fault"][1]
+        fp = {m["fault"][0]: ({"transport": "before" if f.endswith("before") else "after", "error": "APIError"} if f.startswith("transport") else {"per": [f]})}
     h = LiveLife(set(enabled), m)
     w = livex.LiveWorld(SCRIPTS[m["script"]], hooks=h, budgets=dict(m["budgets"]), fault_plan=fp, strategy_kw=dict(max_live_trade_count=2))
     h.world = w
